@@ -27,7 +27,9 @@ NEST = {
     'index': lambda n: 'a' + '[0]' * n, 'optional-chain': lambda n: 'a' + '?.b' * n, 'template': lambda n: '`${' * n + '1' + '}`' * n, 'assignparen': lambda n: '(a = ' * n + '1' + ')' * n,
     'assign-chain': lambda n: 'a=' * n + '1', 'fn': lambda n: 'function f(){' * n + '}' * n, 'fn-expr': lambda n: '(function(){return ' * n + '1' + '})' * n, 'class': lambda n: 'class A { m(){ ' * n + '}}' * n,
     'generic-type': lambda n: 'let x: ' + 'Array<' * n + 'number' + '>' * n + ';', 'new': lambda n: 'new ' * n + 'X', 'if': lambda n: 'if(1)' * n + ';', 'if-else': lambda n: 'if(1){}else ' * n + ';',
-    'typeparen': lambda n: 'let x: ' + '(' * n + 'number' + ')' * n + ';', 'arrpattern': lambda n: 'let ' + '[' * n + 'a' + ']' * n + ' = 1;', 'objpattern': lambda n: 'let ' + '{a:' * n + 'b' + '}' * n + ' = 1;',
+    'typeparen': lambda n: 'let x: ' + '(' * n + 'number' + ')' * n + ';', 'rest-arrpattern': lambda n: 'let ' + '[...' * n + 'a' + ']' * n + ' = [];', 'rest-arrpattern-param': lambda n: 'function f(' + '[...' * n + 'a' + ']' * n + ') {}', 'rest-objpattern': lambda n: 'let ' + '{...' * 1 + 'r' + '}' + ' = ' + '{a:' * n + '1' + '}' * n + ';',
+    'default-arrpattern': lambda n: 'let ' + '[a = ' * n + '1' + ']' * n + ' = [];', 'catch-arrpattern': lambda n: 'try {} catch (' + '[' * n + 'e' + ']' * n + ') {}', 'arrow-param-pattern': lambda n: '(' + '[' * n + 'a' + ']' * n + ') => 1;', 'assign-arrpattern': lambda n: '[' * n + 'a' + ']' * n + ' = 1;',
+    'arrpattern': lambda n: 'let ' + '[' * n + 'a' + ']' * n + ' = 1;', 'objpattern': lambda n: 'let ' + '{a:' * n + 'b' + '}' * n + ' = 1;',
     'await': lambda n: 'async function f(){ ' + 'await ' * n + '1 }', 'yield': lambda n: 'function* g(){ ' + 'yield ' * n + '1 }', 'comma': lambda n: '1' + ',1' * n, 'array-elems': lambda n: '[' + '1,' * n + ']',
     'spread': lambda n: '[' + '...' * 1 + '[' * n + ']' * n + ']', 'label': lambda n: ''.join('l%d:' % i for i in range(n)) + ';', 'while': lambda n: 'while(0)' * n + ';', 'for': lambda n: 'for(;;)' * n + 'break;',
     'try': lambda n: 'try{' * n + '}finally{}' * n, 'switch': lambda n: 'switch(1){default:' * n + '}' * n, 'union-type': lambda n: 'let x: ' + 'a|' * n + 'b;', 'fn-type': lambda n: 'let x: ' + '()=>' * n + 'void;',
@@ -45,6 +47,8 @@ def depths(tier):
     ds = list(range(1, 41)) + [48, 56, 64, 96, 128, 192, 256, 384, 512, 768, 1024, 1536, 2048, 3072, 4096, 8192]
     if tier != "quick":
         ds += [16384, 32768, 65536, 131072]
+    else:
+        ds += [32768]   # one rung far beyond the parser's own nesting limit (1200): a bypassed guard overflows here
     return ds
 
 
